@@ -4,9 +4,9 @@ extra=sys.argv[2] if len(sys.argv)>2 else ""
 for l in open('/verif/properties.jsonl'):
     p=json.loads(l)
     if p['id']==pid: break
-txt=f"""You are helping test a verification effort by seeding a realistic bug. Work ONLY inside the scratch git worktree /tmp/wt7/{pid} (a checkout of the Go library github.com/tjfoc/gmsm: SM2/SM3/SM4, x509, pkcs12 and a GM/T 0024 TLS stack). Do not touch /repo or /verif, and do not read anything under /verif.
+txt=f"""You are helping test a verification effort by seeding a realistic bug. Work ONLY inside the scratch git worktree /tmp/wt8/{pid} (a checkout of the Go library github.com/tjfoc/gmsm: SM2/SM3/SM4, x509, pkcs12 and a GM/T 0024 TLS stack). Do not touch /repo or /verif, and do not read anything under /verif.
 
-Environment: no network. In every shell call first run: export GOFLAGS=-mod=mod GOPROXY=off GOSUMDB=off GOTOOLCHAIN=local . The existing test suite is run with: cd /tmp/wt7/{pid} && go test -vet=off -count=1 ./...   (it takes well under a minute; a file pkcs12/test.p12 may be created by the tests, ignore it).
+Environment: no network. In every shell call first run: export GOFLAGS=-mod=mod GOPROXY=off GOSUMDB=off GOTOOLCHAIN=local . The existing test suite is run with: cd /tmp/wt8/{pid} && go test -vet=off -count=1 ./...   (it takes well under a minute; a file pkcs12/test.p12 may be created by the tests, ignore it).
 
 Here is a semantic property the library is supposed to satisfy:
 
@@ -23,7 +23,7 @@ Task: produce TWO different, independent source changes to the library (each a s
   (c) is realistic — the kind of slip a maintainer could make in a refactor or "optimisation" — and needs something SPECIFIC to manifest: an unusual input, a particular length/boundary, a multi-step sequence of operations, a particular interleaving, or two cooperating sites that each look fine alone. NOT something ordinary use would expose at once (e.g. do not simply break every encryption).
 The two changes should exercise different mechanisms/areas of the property.
 
-For each change i in {{1,2}} write into /tmp/seeded7/{pid}/m{{i}}/ :
+For each change i in {{1,2}} write into /tmp/seeded8/{pid}/m{{i}}/ :
   - patch.diff : `git diff` of the change against the pristine worktree (apply-able with `git apply`),
   - a demonstration: a Go test file (e.g. demo_test.go, say in which package directory it must be placed) or a small program that FAILS with the change applied and PASSES on the pristine tree; say exactly how to run it,
   - meta.json : {{"property": "{pid}", "summary": "...", "needs_to_manifest": "...", "files_changed": [...], "demo": {{"place_at": "...", "run": "..."}}, "verified": "what you ran and saw"}}.
